@@ -91,7 +91,11 @@ inline void arena_segv(int sig, siginfo_t* si, void*)
 {
     auto& a = arena();
     auto addr = reinterpret_cast<unsigned char*>(si->si_addr);
-    if(a.armed && addr >= a.res_begin && addr < a.res_end)
+    // Any fault while the code under test runs is its access: inside the reservation it is an
+    // out-of-bounds offset relative to the frame, outside it a wild pointer (wrapped or
+    // overflowed arithmetic on hostile values) - reported the same way, with the (huge or
+    // negative) distance from the frame, so that the run stays a classifiable outcome.
+    if(a.armed)
     {
         a.pending.kind = Out::OOB;
         a.pending.off = addr - a.frame;
